@@ -608,6 +608,21 @@ def cross_file_cases():
     # and the symbols are the second file's own
     out.append(({"stmts": dep, "target": "a", "tag": "include-two-dirs-own-symbols", "prologue": "include('common.cond')\n",
                  "files": dict(good, **{"zz/COND": "include('common.cond')\nassert REPS == 4\nrun_command(name='leaf', run='true')\n", "zz/common.cond": "REPS = 4\n"})}, True))
+    # every COND file is evaluated in a scope of its own: what another COND file of the same invocation defined, imported or
+    # included is invisible to it, and cannot shadow its constructors -- in both orders of evaluation (the loader takes the
+    # last-listed dependency first).  (Seed C15/l: all COND files ran in the loader's one shared scope.)
+    for order in (["//zz:leaf", "//yy:leaf"], ["//yy:leaf", "//zz:leaf"]):
+        two = [T0, ("call", "run_command", {"name": "a", "run": "true", "deps": order})]
+        o = "zz-first" if order[0].startswith("//zz") else "yy-first"
+        out.append(({"stmts": two, "target": "a", "tag": "scope-forgotten-include-" + o, "prologue": "",
+                     "files": {"yy/common.cond": "REPS = 3\n", "yy/COND": "include('common.cond')\nimport math\nrun_command(name='leaf', run='true', args=[REPS])\n",
+                               "zz/COND": "run_command(name='leaf', run='true', args=[REPS])\n"}, "must_name": "zz"}, False))
+        out.append(({"stmts": two, "target": "a", "tag": "scope-forgotten-import-" + o, "prologue": "",
+                     "files": {"yy/COND": "import math\nrun_command(name='leaf', run='true', args=[math.floor(2.5)])\n",
+                               "zz/COND": "run_command(name='leaf', run='true', args=[math.floor(2.5)])\n"}, "must_name": "zz"}, False))
+        out.append(({"stmts": two, "target": "a", "tag": "scope-shadowed-constructor-" + o, "prologue": "",
+                     "files": {"yy/COND": "group = 'nightly'\nrun_command = print if False else run_command\nrun_command(name='leaf', run='true')\n",
+                               "zz/COND": "run_command(name='leaf', run='true')\ngroup(name='g', deps=[':leaf'])\n"}}, True))
     # COND files that cannot be read as UTF-8 text / are not files
     latin = "# caf\xe9\nrun_command(name='a', run='true')\n".encode("latin-1")
     out.append(({"stmts": [T0], "target": "a", "tag": "cond-not-utf8", "prologue": "", "files": {DIR + "/COND": latin}, "must_name": "COND"}, False))
